@@ -17,7 +17,7 @@ import (
 // crash/restore, fork) and the SM3 KDF, against the model, on every tier.
 
 func init() {
-	SelfTests = append(SelfTests, sm3m.SelfTest)
+	selfTests("C01", sm3m.SelfTest)
 	register(&Prop{
 		ID:    "C01",
 		Level: "exploration",
